@@ -263,6 +263,17 @@ class Effects:
             if isinstance(n, ast.Name) and isinstance(n.ctx, ast.Store):
                 local_assigned.add(n.id)
         tainted = self._registry_tainted(f, nodes)
+        # parameters with a mutable default: one object shared by all calls
+        mutable_defaults = set()
+        pos_params = [x.arg for x in a.posonlyargs + a.args]
+        for pname, d in list(zip(pos_params[len(pos_params) - len(a.defaults):], a.defaults)) + \
+                [(x.arg, d) for x, d in zip(a.kwonlyargs, a.kw_defaults) if d is not None]:
+            if isinstance(d, (ast.Dict, ast.List, ast.Set, ast.ListComp, ast.DictComp, ast.SetComp)) or \
+                    (isinstance(d, ast.Call) and (dotted(d.func) or "").split(".")[-1] in ("dict", "list", "set", "defaultdict", "cycle", "deque", "Counter", "OrderedDict", "iter")):
+                mutable_defaults.add(pname)
+        for n in nodes:
+            if isinstance(n, ast.Return) and isinstance(n.value, ast.Name) and n.value.id in mutable_defaults:
+                out.append(Effect("default-mutation", f, n, n.value.id, "the shared default object is handed out to callers"))
 
         def is_module_name(name):
             if name in allparams or (name in local_assigned and name not in globals_decl):
@@ -298,6 +309,8 @@ class Effects:
                             out.append(Effect("tainted-mutation", f, x, root, "item store into data obtained from registry.get"))
                         elif root == selfname:
                             out.append(Effect("self-store", f, x, ast.unparse(x.value)))
+                        elif root in mutable_defaults:
+                            out.append(Effect("default-mutation", f, x, root, "item store into a mutable default argument"))
                         elif root in allparams:
                             out.append(Effect("param-mutation", f, x, root))
                         elif is_module_name(root):
@@ -310,6 +323,8 @@ class Effects:
                     out.append(Effect("tainted-mutation", f, n, root, f".{n.func.attr}() on data obtained from registry.get"))
                 elif root == selfname and isinstance(n.func.value, ast.Attribute):
                     out.append(Effect("self-store", f, n, ast.unparse(n.func.value), f".{n.func.attr}()"))
+                elif root in mutable_defaults:
+                    out.append(Effect("default-mutation", f, n, root, f".{n.func.attr}() on a mutable default argument"))
                 elif root in allparams and root != selfname:
                     out.append(Effect("param-mutation", f, n, root, f".{n.func.attr}()"))
                 elif is_module_name(root):
